@@ -21,7 +21,9 @@ func rw(v reflect.Value) reflect.Value {
 	return v
 }
 
-type cloner struct{ seen map[unsafe.Pointer]reflect.Value }
+type cloner struct {
+	seen map[unsafe.Pointer]reflect.Value
+}
 
 // pod reports whether values of t contain no references at all (scalars, and structs/arrays of
 // such): they can be copied wholesale.
